@@ -143,6 +143,41 @@ M = [
     ("glyph-insert-full", "pixman/pixman-glyph.c", "pixman_glyph_cache_insert", ">= HASH_SIZE - 1)", ">= HASH_SIZE)", 0),
     ("glyph-macro-high", "pixman/pixman-glyph.c", None, "#define N_GLYPHS_HIGH_WATER  (16384)", "#define N_GLYPHS_HIGH_WATER  (16385)", 0),
     ("glyph-new-test", "pixman/pixman-glyph.c", "pixman_glyph_cache_thaw", "    if (--cache->freeze_count", "    if (!cache) return;\n    if (--cache->freeze_count", 0),
+    # ---- pixman-glyph.c: loop steps
+    ("gstep-lookup-mask", "pixman/pixman-glyph.c", "lookup_glyph", "idx++ & HASH_MASK", "idx++ & (HASH_MASK - 1)", 0),
+    ("gstep-lookup-tomb", "pixman/pixman-glyph.c", "lookup_glyph", "g != TOMBSTONE", "g == TOMBSTONE", 0),
+    ("gstep-lookup-key", "pixman/pixman-glyph.c", "lookup_glyph", "g->glyph_key == glyph_key", "g->glyph_key == font_key", 0),
+    ("gstep-insert-tomb", "pixman/pixman-glyph.c", "insert_glyph", "*loc != TOMBSTONE)", "*loc == TOMBSTONE)", 0),
+    ("gstep-insert-count", "pixman/pixman-glyph.c", "insert_glyph", "cache->n_glyphs++;", "cache->n_glyphs--;", 0),
+    ("gstep-insert-tombcount", "pixman/pixman-glyph.c", "insert_glyph", "if (*loc == TOMBSTONE)", "if (*loc != TOMBSTONE)", 0),
+    ("gstep-remove-find", "pixman/pixman-glyph.c", "remove_glyph", "!= glyph)", "== glyph)", 0),
+    ("gstep-remove-mark", "pixman/pixman-glyph.c", "remove_glyph", "cache->n_tombstones++;", "cache->n_tombstones--;", 0),
+    ("gstep-remove-wrap", "pixman/pixman-glyph.c", "remove_glyph", "(idx + 1) & HASH_MASK", "(idx + 1)", 0),
+    ("gstep-remove-next", "pixman/pixman-glyph.c", "remove_glyph", "(idx + 1) & HASH_MASK", "(idx + 2) & HASH_MASK", 0),
+    ("gstep-clear-cond", "pixman/pixman-glyph.c", "remove_glyph", "== TOMBSTONE)\n\t{", "!= NULL)\n\t{", 0),
+    ("gstep-clear-value", "pixman/pixman-glyph.c", "remove_glyph", "cache->glyphs[idx & HASH_MASK] = NULL;", "cache->glyphs[idx & HASH_MASK] = TOMBSTONE;", 0),
+    ("gstep-clear-dir", "pixman/pixman-glyph.c", "remove_glyph", "idx--;", "idx++;", 0),
+    ("seed-C17-m1", "patch", "seeded/C17-m1/patch.diff", "", "", 0),
+    ("seed-C17-m6", "patch", "seeded/C17-m6/patch.diff", "", "", 0),
+    ("seed-C17-m5", "patch", "seeded/C17-m5/patch.diff", "", "", 0),
+    # ---- pixman-region.c (through pixman-region32.c): translate / set_extents / coalesce steps
+    ("reg-sum", "pixman/pixman-region.c", None, "x2 = (overflow_int_t)region->extents.x2 + x;", "x2 = (overflow_int_t)region->extents.x2 + y;", 0),
+    ("reg-inrange", "pixman/pixman-region.c", None, "(PIXMAN_REGION_MAX - x2) | (PIXMAN_REGION_MAX - y2)) >= 0)", "(PIXMAN_REGION_MAX - x2) | (PIXMAN_REGION_MAX - y2)) > 0)", 0),
+    ("reg-inrange-term", "pixman/pixman-region.c", None, "(y1 - PIXMAN_REGION_MIN) | (PIXMAN_REGION_MAX - x2)", "(y1 - PIXMAN_REGION_MIN) | (PIXMAN_REGION_MAX - x1)", 0),
+    ("reg-outside", "pixman/pixman-region.c", None, "if (x2 <= PIXMAN_REGION_MIN || y2 <= PIXMAN_REGION_MIN ||\n\tx1 >= PIXMAN_REGION_MAX", "if (x2 < PIXMAN_REGION_MIN || y2 <= PIXMAN_REGION_MIN ||\n\tx1 >= PIXMAN_REGION_MAX", 0),
+    ("reg-clamp-ext", "pixman/pixman-region.c", None, "region->extents.x2 = (x2 > PIXMAN_REGION_MAX) ? PIXMAN_REGION_MAX : x2;", "region->extents.x2 = (x2 > PIXMAN_REGION_MAX) ? PIXMAN_REGION_MIN : x2;", 0),
+    ("reg-move", "pixman/pixman-region.c", None, "pbox->y2 += y;", "pbox->y2 += x;", 0),
+    ("reg-clamp-drop", "pixman/pixman-region.c", None, "x1 >= PIXMAN_REGION_MAX || y1 >= PIXMAN_REGION_MAX)\n            {", "x1 >= PIXMAN_REGION_MAX || y1 > PIXMAN_REGION_MAX)\n            {", 0),
+    ("reg-clamp-box", "pixman/pixman-region.c", None, "pbox_out->y1 = (y1 < PIXMAN_REGION_MIN) ? PIXMAN_REGION_MIN : y1;", "pbox_out->y1 = (y1 <= PIXMAN_REGION_MIN) ? PIXMAN_REGION_MAX : y1;", 0),
+    ("reg-clamp-count", "pixman/pixman-region.c", None, "region->data->numRects--;\n                continue;", "region->data->numRects++;\n                continue;", 0),
+    ("reg-setext-min", "pixman/pixman-region.c", "pixman_set_extents", "if (box->x1 < region->extents.x1)", "if (box->x1 > region->extents.x1)", 0),
+    ("reg-setext-max", "pixman/pixman-region.c", "pixman_set_extents", "region->extents.x2 = box->x2;", "region->extents.x2 = box->x1;", 0),
+    ("reg-setext-end", "pixman/pixman-region.c", "pixman_set_extents", "while (box <= box_end)", "while (box < box_end)", 0),
+    ("reg-coal-cmp", "pixman/pixman-region.c", None, "(prev_box->x2 != cur_box->x2)", "(prev_box->x2 != cur_box->x1)", 0),
+    ("reg-coal-count", "pixman/pixman-region.c", None, "cur_box++;\n\tnumRects--;", "cur_box++;\n\tnumRects++;", 0),
+    ("reg-coal-merge", "pixman/pixman-region.c", None, "prev_box->y2 = y2;", "prev_box->y1 = y2;", 0),
+    ("seed-C07-m3", "patch", "seeded/C07-m3/patch.diff", "", "", 0),
+    ("seed-C06-m4", "patch", "seeded/C06-m4/patch.diff", "", "", 0),
     # ---- fail closed: constructs outside the accepted subset
     ("unsupported-goto", "pixman/pixman-matrix.c", "fixed_112_16_to_fixed_48_16", "*clampflag = TRUE;", "*clampflag = TRUE; goto out;", 0),
     ("unsupported-loop", "pixman/pixman-trap.c", "pixman_edge_step", "e->x += n * e->stepx;", "while (n > 3) n--; e->x += n * e->stepx;", 0),
@@ -198,9 +233,17 @@ def main():
     for name, f, func, old, new, occ in M:
         if flt not in name:
             continue
-        p = RM / f
-        orig = p.read_text()
-        p.write_text(apply(orig, func, old, new, occ))
+        if f == "patch":
+            pr = subprocess.run(["patch", "-p1", "-s", "-d", str(RM), "-i", str(HERE / func)], capture_output=True, text=True)
+            if pr.returncode:
+                print(f"{name:24s} {func:32s} PATCH-DOES-NOT-APPLY")
+                subprocess.run(["rsync", "-a", "--delete", "--exclude", "_build", "--exclude", ".git", f"{REPO}/", f"{RM}/"])
+                continue
+            p, orig = None, None
+        else:
+            p = RM / f
+            orig = p.read_text()
+            p.write_text(apply(orig, func, old, new, occ))
         try:
             r = sh(gen)
             if r.returncode:
@@ -222,7 +265,10 @@ def main():
                 survived += 1
                 print(f"{name:24s} {func or f:32s} SURVIVED")
         finally:
-            p.write_text(orig)
+            if p is None:
+                subprocess.run(["rsync", "-a", "--delete", "--exclude", "_build", "--exclude", ".git", f"{REPO}/", f"{RM}/"])
+            else:
+                p.write_text(orig)
     print(f"{survived} mutation(s) survived")
     sys.exit(1 if survived else 0)
 
